@@ -2,7 +2,9 @@
 import glob, json, os
 import vlib
 
-PROOFS = ["C04/ProofsList.vo", "C04/ProofsPerm.vo", "C04/ProofsDet.vo", "C04/ProofsBS.vo", "C04/ProofsGJ.vo"]
+PROOFS = ["C04/ProofsList.vo", "C04/ProofsPerm.vo", "C04/ProofsDet.vo", "C04/ProofsBS.vo", "C04/ProofsGJ.vo",
+          "C04/ProofsGJ2.vo", "C04/ProofsGJ3.vo", "C04/ProofsGJ4.vo", "C04/ProofsSing.vo", "C04/ProofsInv.vo",
+          "C04/ProofsDet2.vo", "C04/ProofsEx.vo"]
 TARGETS = ["Base/Num.vo", "Base/Corr.vo", "C04/Model.vo", "C04/Corr.vo", "C04/Spec.vo", "C04/SpecTest.vo"] + \
           [p for p in PROOFS if os.path.exists(os.path.join(vlib.COQ, p[:-1]))] + ["C04/Props.vo"]
 PROPS = ["C04/Props.v"]
